@@ -28,7 +28,7 @@ ASSUMPTIONS = [
     "array angle lists are used only with angles_order zxz (the array + zzx combination is documented inconsistently)",
     "cluster_size, n_particles, symmetry and tomo_mask options of the peak extraction are left at their defaults",
 ]
-BUDGET = {"quick": {"examples": 650, "seconds": 85}, "thorough": {"examples": 3500, "seconds": 540}}
+BUDGET = {"quick": {"examples": 1300, "seconds": 85}, "thorough": {"examples": 3500, "seconds": 540}}
 
 C = oracle.MOTL_COLUMNS
 IX = {c: i for i, c in enumerate(C)}
